@@ -117,10 +117,10 @@ Print Assumptions c10_truncated.
 Theorem c10_chain_is_frame : forall f, encode_frame f = concat (map lhdr (frame_chain f)) ++ frame_rest f.
 Proof. exact encode_frame_chain. Qed.
 
-(* non-vacuity of the truncation theorem: generated frame 3 has more than three headers; cut 2 bytes into
+(* non-vacuity of the truncation theorem: generated frame 2 has more than three headers; cut 2 bytes into
    its fourth header the dissector reports three layers *)
 Example c10_truncated_nonvacuous :
-  let f := gcase gen_frame 1 3 in
+  let f := gcase gen_frame 1 2 in
   wf_frame f = true /\ (3 <? lenN (frame_chain f)) = true /\
   (2 <? N.of_nat (min_len (lp (nth 3 (frame_chain f) dummy_layer)))) = true /\
   match parse_packet empty_pcfg empty_msg (firstn (length (concat (map lhdr (firstn 3 (frame_chain f)))) + 2) (encode_frame f)) with
